@@ -14,7 +14,7 @@ ln -sfn $SR $SV/repo-link; mkdir -p $SV/evidence
 git -C $SR apply "$P" || { echo "patch does not apply"; exit 2; }
 for id in "$@"; do
   start=$(date +%s)
-  (cd $SV && VERIF_ROOT=$SV ./check $id --tier quick) > /tmp/sv_run.log 2>&1; rc=$?
+  (cd $SV && VERIF_ROOT=$SV ./check $id --tier ${TIER:-quick}) > /tmp/sv_run.log 2>&1; rc=$?
   echo "$(basename $(dirname $P)) vs $id: rc=$rc ($(( $(date +%s)-start ))s) $(grep -m1 'key:' /tmp/sv_run.log | cut -c1-160)"
 done
 git -C $SR checkout -q -- .
